@@ -29,6 +29,41 @@ def unhex(s):
     return float(s) if s in ("nan", "inf", "-inf") else float.fromhex(s)
 
 
+_NP = None
+_NP_SRC = """
+import sys, numpy as np
+def h(v):
+    return 'nan' if v != v else ('inf' if v == float('inf') else ('-inf' if v == float('-inf') else float(v).hex()))
+for line in sys.stdin:
+    op, x = line.split()
+    x = float(x) if x in ('nan', 'inf', '-inf') else float.fromhex(x)
+    with np.errstate(all='ignore'):
+        v = np.log(x) if op == 'log' else np.log10(x)
+    sys.stdout.write('= ' + h(float(v)) + chr(10)); sys.stdout.flush()
+"""
+
+
+def np_log(op, a):
+    """numpy's log / log10 of one float (the harness interpreter has no numpy: a helper process under the drivers' python)."""
+    global _NP
+    import subprocess
+    if _NP is None or _NP.poll() is not None:
+        _NP = subprocess.Popen([common.PY, "-W", "ignore", "-c", _NP_SRC], stdin=subprocess.PIPE, stdout=subprocess.PIPE,
+                               stderr=subprocess.DEVNULL, text=True, bufsize=1)
+    _NP.stdin.write("%s %s\n" % (op, MG_hex(a)))
+    _NP.stdin.flush()
+    while True:
+        line = _NP.stdout.readline()
+        if not line:
+            raise RuntimeError("numpy helper died")
+        if line.startswith("= "):
+            return line[2:].strip()
+
+
+def MG_hex(v):
+    return "nan" if v != v else ("inf" if v == float("inf") else ("-inf" if v == float("-inf") else v.hex()))
+
+
 def vec_inside(rng, pool, mode="inside"):
     vec = []
     for s in pool:
@@ -147,7 +182,7 @@ def gen_cases(ctx, n):
         ext = rng.random() < 0.75      # a quarter of the programs stay in the original (ModelTree-only) shapes
         g = MG.Gen(rng, max_depth=2 if ctx.tier == "quick" else 4, big_tuples=True, arrays=True,
                    families=("uniform", "uniform", "uniform", "gaussian", "loguniform"),
-                   tuple_member_kinds=ext, underscore_classes=ext, more_ops=ext, more_forms=ext, defaults=ext)
+                   tuple_member_kinds=ext, underscore_classes=ext, more_ops=ext, more_forms=ext, defaults=ext, log_ops=ext)
         prog = g.program()
         if len(prog["pool"]) > 40:
             continue
@@ -219,6 +254,10 @@ def expected_instance(e, vec):
         return {"t": "v", "v": apply_op(e["op"], a, b).hex()}
     if t == "unary":
         a = unhex(expected_instance(e["a"], vec)["v"])
+        if e["op"] in ("log", "log10"):
+            # the library calls numpy; np.log and math.log differ in the last bit on ~8% of inputs, so the statement
+            # "the value is log of the operand's value from the same assignment" is evaluated with numpy's function
+            return {"t": "v", "v": np_log(e["op"], a)}
         return {"t": "v", "v": (-a if e["op"] == "neg" else abs(a)).hex()}
     if t == "tuple":
         return {"t": "tup", "vs": [expected_instance(m, vec) for m in e["members"]]}
@@ -242,7 +281,8 @@ def same_inst(a, b):
     if a["t"] == "tup":
         return len(a["vs"]) == len(b["vs"]) and all(same_inst(x, y) for x, y in zip(a["vs"], b["vs"]))
     if a["t"] == "arr":
-        return a["shape"] == b["shape"] and [unhex(x) for x in a["vs"]] == [unhex(x) for x in b["vs"]]
+        xs, ys = [unhex(x) for x in a["vs"]], [unhex(x) for x in b["vs"]]      # (nan = nan, as for scalars: log of a negative value)
+        return a["shape"] == b["shape"] and len(xs) == len(ys) and all(x == y or (x != x and y != y) for x, y in zip(xs, ys))
     if a["t"] in ("obj", "coll"):
         if a.get("cls") != b.get("cls") or len(a["fields"]) != len(b["fields"]):
             return False
@@ -632,7 +672,11 @@ def run(ctx):
                 ctx.failure("oracle", "[%s] %s" % (phase, msg), c, classes=cls,
                             impl={k: ro[k] for k in ("paths", "upaths", "count", "ids", "inst", "pv", "inst_paths_any", "vec_from_unit", "inst_unit")})
             if not MG.tree_ok_for_model(ro["tree"]):
-                ctx.hist("coq-correspondence", "not sent: array / ** / reserved attribute name")
+                ctx.hist("coq-correspondence", "not sent: array / ** / Log / Log10 / reserved attribute name")
+                if any_node(root, lambda e_: e_["t"] == "unary" and e_["op"] in ("log", "log10")):
+                    ctx.hist("oracle-only forms", "af.Log / af.Log10 (value = numpy log of the operand's value)")
+                if uses_pow(root):
+                    ctx.hist("oracle-only forms", "**")
                 continue
             for f_ in sorted(tree_features(ro["tree"])):
                 ctx.hist("coq-correspondence:unary-features", f_)
